@@ -87,6 +87,35 @@ func c12SourceFacts(b *strings.Builder) {
 	fmt.Fprintf(b, "def paths_body_RemoteResourceLoaders : String := %s\n", leanStr(funcBody(parse("loader/loader.go"), "Options", "RemoteResourceLoaders")))
 	fmt.Fprintf(b, "/-- every assignment to a `ResourceLoaders` field in the non-test files of package loader: (file, function, statement) -/\ndef paths_loaderAssignments : List (String × String × String) := [%s]\n",
 		strings.Join(c12LoaderAssignments(), ", "))
+	// round 7: the state a load carries into its nested loads.  A new field of Options (a cache, a memo, a counter)
+	// that `clone` hands to every include / extends child is state shared between loads of DIFFERENT directories.
+	lf := parse("loader/loader.go")
+	var fields []string
+	for _, d := range lf.Decls {
+		g, ok := d.(*ast.GenDecl)
+		if !ok || g.Tok != token.TYPE {
+			continue
+		}
+		for _, sp := range g.Specs {
+			ts := sp.(*ast.TypeSpec)
+			st, ok := ts.Type.(*ast.StructType)
+			if !ok || ts.Name.Name != "Options" {
+				continue
+			}
+			for _, fl := range st.Fields.List {
+				ty := strings.Join(strings.Fields(src(fl.Type)), " ")
+				if len(fl.Names) == 0 {
+					fields = append(fields, "(embedded) "+ty)
+				}
+				for _, id := range fl.Names {
+					fields = append(fields, id.Name+" "+ty)
+				}
+			}
+		}
+	}
+	fmt.Fprintf(b, "/-- loader/loader.go `type Options struct`: every field (name type) in source order -/\ndef paths_optionsFields : List String := [%s]\n", joinLean(fields))
+	fmt.Fprintf(b, "def paths_body_clone : String := %s\n", leanStr(funcBody(lf, "Options", "clone")))
+	fmt.Fprintf(b, "def paths_body_getExtendsBaseFromFile : String := %s\n", leanStr(funcBody(parse("loader/extends.go"), "", "getExtendsBaseFromFile")))
 }
 
 // c12LoaderAssignments lists every statement of package loader (normal build) that assigns to a field named ResourceLoaders.
